@@ -123,21 +123,61 @@ impl SlaveContext for Context {
     }
 }
 
+/// Error for a response that doesn't match the request it answers,
+/// e.g. an unexpected number of items or a different echo.
+fn unexpected_response(message: String) -> crate::Error {
+    io::Error::new(io::ErrorKind::InvalidData, message).into()
+}
+
+/// Returns exactly the requested number of coils from the response.
+fn expect_coils(
+    mut coils: Vec<Coil>,
+    cnt: Quantity,
+) -> std::result::Result<Vec<Coil>, crate::Error> {
+    if coils.len() < usize::from(cnt) {
+        return Err(unexpected_response(format!(
+            "unexpected number of coils: requested = {cnt}, received = {}",
+            coils.len()
+        )));
+    }
+    coils.truncate(cnt.into());
+    Ok(coils)
+}
+
+/// Returns the words of the response if their number equals the requested number.
+fn expect_words(words: Vec<Word>, cnt: Quantity) -> std::result::Result<Vec<Word>, crate::Error> {
+    if words.len() != usize::from(cnt) {
+        return Err(unexpected_response(format!(
+            "unexpected number of words: requested = {cnt}, received = {}",
+            words.len()
+        )));
+    }
+    Ok(words)
+}
+
+/// Verifies that the response of a write request echoes the request.
+fn expect_echo<T: PartialEq + Debug>(
+    request: T,
+    response: T,
+) -> std::result::Result<(), crate::Error> {
+    if request != response {
+        return Err(unexpected_response(format!(
+            "unexpected response: request = {request:?}, response = {response:?}"
+        )));
+    }
+    Ok(())
+}
+
 #[async_trait]
 impl Reader for Context {
     async fn read_coils<'a>(&'a mut self, addr: Address, cnt: Quantity) -> Result<Vec<Coil>> {
         self.client
             .call(Request::ReadCoils(addr, cnt))
             .await
-            .map(|result| {
-                result.map(|response| match response {
-                    Response::ReadCoils(mut coils) => {
-                        debug_assert!(coils.len() >= cnt.into());
-                        coils.truncate(cnt.into());
-                        coils
-                    }
-                    _ => unreachable!("call() should reject mismatching responses"),
-                })
+            .and_then(|result| match result {
+                Ok(Response::ReadCoils(coils)) => expect_coils(coils, cnt).map(Ok),
+                Ok(_) => unreachable!("call() should reject mismatching responses"),
+                Err(exception) => Ok(Err(exception)),
             })
     }
 
@@ -149,15 +189,10 @@ impl Reader for Context {
         self.client
             .call(Request::ReadDiscreteInputs(addr, cnt))
             .await
-            .map(|result| {
-                result.map(|response| match response {
-                    Response::ReadDiscreteInputs(mut coils) => {
-                        debug_assert!(coils.len() >= cnt.into());
-                        coils.truncate(cnt.into());
-                        coils
-                    }
-                    _ => unreachable!("call() should reject mismatching responses"),
-                })
+            .and_then(|result| match result {
+                Ok(Response::ReadDiscreteInputs(coils)) => expect_coils(coils, cnt).map(Ok),
+                Ok(_) => unreachable!("call() should reject mismatching responses"),
+                Err(exception) => Ok(Err(exception)),
             })
     }
 
@@ -169,14 +204,10 @@ impl Reader for Context {
         self.client
             .call(Request::ReadInputRegisters(addr, cnt))
             .await
-            .map(|result| {
-                result.map(|response| match response {
-                    Response::ReadInputRegisters(words) => {
-                        debug_assert_eq!(words.len(), cnt.into());
-                        words
-                    }
-                    _ => unreachable!("call() should reject mismatching responses"),
-                })
+            .and_then(|result| match result {
+                Ok(Response::ReadInputRegisters(words)) => expect_words(words, cnt).map(Ok),
+                Ok(_) => unreachable!("call() should reject mismatching responses"),
+                Err(exception) => Ok(Err(exception)),
             })
     }
 
@@ -188,14 +219,10 @@ impl Reader for Context {
         self.client
             .call(Request::ReadHoldingRegisters(addr, cnt))
             .await
-            .map(|result| {
-                result.map(|response| match response {
-                    Response::ReadHoldingRegisters(words) => {
-                        debug_assert_eq!(words.len(), cnt.into());
-                        words
-                    }
-                    _ => unreachable!("call() should reject mismatching responses"),
-                })
+            .and_then(|result| match result {
+                Ok(Response::ReadHoldingRegisters(words)) => expect_words(words, cnt).map(Ok),
+                Ok(_) => unreachable!("call() should reject mismatching responses"),
+                Err(exception) => Ok(Err(exception)),
             })
     }
 
@@ -214,14 +241,12 @@ impl Reader for Context {
                 Cow::Borrowed(write_data),
             ))
             .await
-            .map(|result| {
-                result.map(|response| match response {
-                    Response::ReadWriteMultipleRegisters(words) => {
-                        debug_assert_eq!(words.len(), read_count.into());
-                        words
-                    }
-                    _ => unreachable!("call() should reject mismatching responses"),
-                })
+            .and_then(|result| match result {
+                Ok(Response::ReadWriteMultipleRegisters(words)) => {
+                    expect_words(words, read_count).map(Ok)
+                }
+                Ok(_) => unreachable!("call() should reject mismatching responses"),
+                Err(exception) => Ok(Err(exception)),
             })
     }
 }
@@ -232,14 +257,12 @@ impl Writer for Context {
         self.client
             .call(Request::WriteSingleCoil(addr, coil))
             .await
-            .map(|result| {
-                result.map(|response| match response {
-                    Response::WriteSingleCoil(rsp_addr, rsp_coil) => {
-                        debug_assert_eq!(addr, rsp_addr);
-                        debug_assert_eq!(coil, rsp_coil);
-                    }
-                    _ => unreachable!("call() should reject mismatching responses"),
-                })
+            .and_then(|result| match result {
+                Ok(Response::WriteSingleCoil(rsp_addr, rsp_coil)) => {
+                    expect_echo((addr, coil), (rsp_addr, rsp_coil)).map(Ok)
+                }
+                Ok(_) => unreachable!("call() should reject mismatching responses"),
+                Err(exception) => Ok(Err(exception)),
             })
     }
 
@@ -248,14 +271,12 @@ impl Writer for Context {
         self.client
             .call(Request::WriteMultipleCoils(addr, Cow::Borrowed(coils)))
             .await
-            .map(|result| {
-                result.map(|response| match response {
-                    Response::WriteMultipleCoils(rsp_addr, rsp_cnt) => {
-                        debug_assert_eq!(addr, rsp_addr);
-                        debug_assert_eq!(cnt, rsp_cnt.into());
-                    }
-                    _ => unreachable!("call() should reject mismatching responses"),
-                })
+            .and_then(|result| match result {
+                Ok(Response::WriteMultipleCoils(rsp_addr, rsp_cnt)) => {
+                    expect_echo((addr, cnt), (rsp_addr, usize::from(rsp_cnt))).map(Ok)
+                }
+                Ok(_) => unreachable!("call() should reject mismatching responses"),
+                Err(exception) => Ok(Err(exception)),
             })
     }
 
@@ -263,14 +284,12 @@ impl Writer for Context {
         self.client
             .call(Request::WriteSingleRegister(addr, word))
             .await
-            .map(|result| {
-                result.map(|response| match response {
-                    Response::WriteSingleRegister(rsp_addr, rsp_word) => {
-                        debug_assert_eq!(addr, rsp_addr);
-                        debug_assert_eq!(word, rsp_word);
-                    }
-                    _ => unreachable!("call() should reject mismatching responses"),
-                })
+            .and_then(|result| match result {
+                Ok(Response::WriteSingleRegister(rsp_addr, rsp_word)) => {
+                    expect_echo((addr, word), (rsp_addr, rsp_word)).map(Ok)
+                }
+                Ok(_) => unreachable!("call() should reject mismatching responses"),
+                Err(exception) => Ok(Err(exception)),
             })
     }
 
@@ -283,14 +302,12 @@ impl Writer for Context {
         self.client
             .call(Request::WriteMultipleRegisters(addr, Cow::Borrowed(data)))
             .await
-            .map(|result| {
-                result.map(|response| match response {
-                    Response::WriteMultipleRegisters(rsp_addr, rsp_cnt) => {
-                        debug_assert_eq!(addr, rsp_addr);
-                        debug_assert_eq!(cnt, rsp_cnt.into());
-                    }
-                    _ => unreachable!("call() should reject mismatching responses"),
-                })
+            .and_then(|result| match result {
+                Ok(Response::WriteMultipleRegisters(rsp_addr, rsp_cnt)) => {
+                    expect_echo((addr, cnt), (rsp_addr, usize::from(rsp_cnt))).map(Ok)
+                }
+                Ok(_) => unreachable!("call() should reject mismatching responses"),
+                Err(exception) => Ok(Err(exception)),
             })
     }
 
@@ -303,15 +320,16 @@ impl Writer for Context {
         self.client
             .call(Request::MaskWriteRegister(addr, and_mask, or_mask))
             .await
-            .map(|result| {
-                result.map(|response| match response {
-                    Response::MaskWriteRegister(rsp_addr, rsp_and_mask, rsp_or_mask) => {
-                        debug_assert_eq!(addr, rsp_addr);
-                        debug_assert_eq!(and_mask, rsp_and_mask);
-                        debug_assert_eq!(or_mask, rsp_or_mask);
-                    }
-                    _ => unreachable!("call() should reject mismatching responses"),
-                })
+            .and_then(|result| match result {
+                Ok(Response::MaskWriteRegister(rsp_addr, rsp_and_mask, rsp_or_mask)) => {
+                    expect_echo(
+                        (addr, and_mask, or_mask),
+                        (rsp_addr, rsp_and_mask, rsp_or_mask),
+                    )
+                    .map(Ok)
+                }
+                Ok(_) => unreachable!("call() should reject mismatching responses"),
+                Err(exception) => Ok(Err(exception)),
             })
     }
 }
